@@ -315,8 +315,10 @@ def reachable(prog):
         elif k == "op":
             visit_o(n[2]), visit_o(n[3])
         elif k == "idx":
-            for o in n[2]:
-                visit_o(o)
+            # the index is a constant, so Python evaluates the subscript at once: only the
+            # selected element is part of the expression (the other one is never sampled,
+            # which matters when it is a range that can be empty)
+            visit_o(n[2][n[3]])
         elif k in ("lift", "vecx"):
             visit_o(n[1]), visit_o(n[2])
 
